@@ -119,6 +119,30 @@ StrLaws ==
     /\ \A n \in 0..130 : LET o == Ordinal(n) IN Len(o) = Len(Digits(n)) + 2
     /\ Ordinal(111)[4] = 116 /\ Ordinal(112)[4] = 116 /\ Ordinal(113)[4] = 116 /\ Ordinal(121)[4] = 115 /\ Ordinal(101)[4] = 115
     /\ AtoI(<<32, 45, 49, 57, 97>>) = -19 /\ AtoU(<<9, 49, 57, 97, 49>>) = 19 /\ AtoI(<<43>>) = 0 /\ AtoI(<<45, 32, 49>>) = 0
+    \* the character classes, byte by byte: the range tests of the operators against the extensional classes of <ctype.h>
+    /\ \A c \in 0..255 :
+         /\ IsSpaceCh(c) = (c \in SpaceBytes) /\ IsDigitCh(c) = (c \in DigitBytes)
+         /\ (LowerCh(c) # c) = (c \in UpperBytes) /\ (c \in UpperBytes => LowerCh(c) = c + 32 /\ LowerCh(c) \notin UpperBytes)
+         /\ \A hi \in BOOLEAN : Len(Esc(c, hi)) = (IF c \in LetterEscBytes THEN 2
+                                                   ELSE IF c \in ControlBytes \/ (hi /\ c >= 128) THEN 4 ELSE 1)
+         /\ (c \in ControlBytes \ LetterEscBytes) => Esc(c, FALSE) = <<92, 120, HexU(c \div 16), HexU(c % 16)>>
+         /\ (c \notin ControlBytes /\ c < 128) => Esc(c, TRUE) = <<c>>
+    /\ SpaceBytes \cap DigitBytes = {} /\ LetterEscBytes \subseteq ControlBytes /\ (SpaceBytes \ {32}) \subseteq LetterEscBytes
+    /\ Cardinality(SpaceBytes) = 6 /\ Cardinality(DigitBytes) = 10 /\ Cardinality(UpperBytes) = 26 /\ Cardinality(ControlBytes) = 33
+    \* AtoI / AtoU characterised without SkipSpaces / DigitRun: white space of the whole class in front of the decimal text of n,
+    \* any byte that is no digit after it; a first byte that is neither white space, sign nor digit makes the number 0
+    /\ \A w \in WhiteRuns, n \in {0, 7, 42, 1203} :
+         /\ AtoI(w \o Digits(n)) = n /\ AtoU(w \o Digits(n)) = n
+         /\ AtoI(w \o <<45>> \o Digits(n)) = 0 - n /\ AtoI(w \o <<43>> \o Digits(n)) = n
+         /\ AtoU(w \o <<45>> \o Digits(n)) = 0 /\ AtoU(w \o <<43>> \o Digits(n)) = 0
+         /\ AtoI(w \o <<45>> \o w \o Digits(n)) = (IF w = <<>> THEN 0 - n ELSE 0)
+         /\ NumLen(w \o <<45>> \o Digits(n) \o w) = Len(Digits(n))
+    /\ \A c \in AllB, n \in {0, 42} :
+         /\ (c \notin DigitBytes) => (AtoI(Digits(n) \o <<c, 57>>) = n /\ AtoU(<<32>> \o Digits(n) \o <<c, 57>>) = n)
+         /\ (c \in DigitBytes) => AtoI(Digits(n) \o <<c>>) = 10 * n + (c - 48)
+         /\ (c \notin (SpaceBytes \cup DigitBytes \cup {43, 45})) => (AtoI(<<c>> \o Digits(n)) = 0 /\ AtoI(<<11, c>> \o Digits(n)) = 0)
+         /\ (c \notin (SpaceBytes \cup DigitBytes)) => (AtoU(<<c>> \o Digits(n)) = 0 /\ AtoU(<<12, c>> \o Digits(n)) = 0)
+         /\ (c \in SpaceBytes) => (AtoI(<<c, 45>> \o Digits(n)) = 0 - n /\ AtoU(<<c, c>> \o Digits(n)) = n)
     /\ MaskedBits({0, 7}, {0, 1, 7, 8}, 2) = <<120, 120, 120, 120, 120, 120, 120, 48, 32, 49, 120, 120, 120, 120, 120, 48, 49>>
     /\ BinaryText(<<0, 171, 255>>) = <<48, 48, 32, 65, 66, 32, 70, 70>>
 ASSUME StrLaws
